@@ -54,6 +54,7 @@ def gen_texts(ctx):
     # canonical forms of a few schemas
     texts += ['"int"', '{"name":"a.b.R","type":"record","fields":[{"name":"f","type":["null","long"]}]}',
               '{"name":"E","type":"enum","symbols":["A","B"]}', '{"type":"array","items":{"type":"map","values":"string"}}']
+    texts += ["é" * 4097, "a" * 8193, "\U0001F600" * 700]      # long texts (several KiB of UTF-8)
     return texts
 
 
@@ -97,6 +98,10 @@ def run(ctx):
     for _ in range(40 if ctx.quick() else 400):
         names.append("".join(rng.choice("abcdefSHAMD5-_0123456789 ") for _ in range(rng.randrange(1, 9))))
     dtexts = ["", "a", '"int"', "héllo \U0001F600", '{"type":"map","values":"long"}']
+    # long texts whose UTF-8 length differs from their character count (chunked hashing, length confusions): the model decides
+    # the dispatch (which algorithm) on the empty text, the digest of the long text is hashlib's / the bit-serial CRC
+    ltexts = ["é" * k for k in (4095, 4096, 4097, 8191, 8192, 8193, 20000)] + ["\u20ac" * 5461 + "x", "\U0001F600" * 2049,
+                                                                             "a" * 8193, ("ab\u00e9" * 7000)[:16385]]
     cases = [(a, t) for a in names for t in dtexts if all(32 <= ord(c) < 127 for c in a)]
     adv_coq = "[" + "; ".join('"%s"' % a for a in ADV) + "]"
     exprs = []
@@ -104,6 +109,27 @@ def run(ctx):
         exprs.append('match fingerprint (fun a _ => ("D:" ++ a)%%string) %s "%s" (hx "%s") with Some s => s | None => "ValueError" end'
                      % (adv_coq, a.replace('"', '""'), t.encode().hex()))
     model = core.coq_eval(exprs, IMPORTS, ctx.workdir, tag="disp", shard=400)
+    disp = {a: m for (a, t), m in zip(cases, model) if t == ""}
+    tbl = _table()
+    for a in [x for x in names if x in disp][:len(ADV) + 12]:
+        for t in ltexts:
+            m = disp[a]
+            if m is None or m.startswith("D:shake_"):
+                continue
+            if m == "ValueError":
+                expect = ("ValueError", None)
+            elif m.startswith("D:"):
+                expect = ("ok", hashlib.new(m[2:], t.encode()).hexdigest())
+            else:
+                st = 0xC15D213AA4D7A795
+                for b in t.encode():
+                    st = (st >> 8) ^ tbl[(st ^ b) & 0xFF]
+                expect = ("ok", st.to_bytes(8, "little").hex())
+            r = impl_fp(t, a)
+            ctx.count("corr:digest-long", (a, t))
+            if r != expect:
+                ctx.violation("corr:digest-long", dict(text=t, algorithm=a), impl=r, model=expect,
+                              signature="C14:dispatch:" + ("unknown-name" if m == "ValueError" else "digest-differs-on-long-text"))
     for (a, t), m in zip(cases, model):
         r = impl_fp(t, a)
         ctx.count("corr:digest", (a, t))
